@@ -170,6 +170,9 @@ def run_history_check(ctx, prop, oracle_props, encoders, trusted, assumptions, e
             tr["overrides"] = pl.get("overrides")
     else:
         trs = run_traces(ctx, jobs, max_legs, seeds=(ctx.seed, ctx.seed + 1000) if ctx.tier == "thorough" else (ctx.seed,))
+    import time as _time
+    t_traced = _time.time()
+    ctx.notes.append("tracing took %.1fs" % (t_traced - ctx.t0))
     # 1. model-independent oracle on every trace
     all_fail = []
     stats_sum = {}
@@ -187,6 +190,8 @@ def run_history_check(ctx, prop, oracle_props, encoders, trusted, assumptions, e
                 stats_sum[k] = max(stats_sum.get(k, 0), v)
             else:
                 stats_sum[k] = stats_sum.get(k, 0) + v
+    ctx.notes.append("oracle took %.1fs" % (_time.time() - t_traced))
+    t_or = _time.time()
     # 2. conformance of the recorded runs with the Coq model, evaluated in Coq
     mism = []
     neval_total = 0
@@ -207,6 +212,7 @@ def run_history_check(ctx, prop, oracle_props, encoders, trusted, assumptions, e
         if err:
             broken.append("%s case files did not evaluate: %s" % (name, err[-800:]))
         mism += [(name, idx[i]) for i in bad]
+    ctx.notes.append("coq conformance took %.1fs" % (_time.time() - t_or))
     # verdicts
     if all_fail:
         ti, p, f = all_fail[0]
